@@ -64,7 +64,7 @@ Proof.
       * unfold in_opt in Hz. destruct (p_pending st a) as [pl|] eqn:Ep; [|destruct Hz].
         eapply sm_get_none_notin; [apply (l_disj _ _ HS a pl ql x Ep Hq Hx) | exact Hz | exact En].
     + intros x. rewrite Eall. cbn. rewrite (l_union _ _ HS x), HinP', HinQ', In_filter_ne.
-      destruct (N.eq_dec (t_from x) a) as [E|E]; [|tauto].
+      destruct (N.eq_dec (t_from x) a) as [E|E]; [|assert (x <> t) by (intros ->; apply E; reflexivity); tauto].
       destruct (tx_eqb x t) eqn:Ex; [apply tx_eqb_eq in Ex; subst x; tauto | apply tx_eqb_neq in Ex; tauto].
     + intros x Hx. apply In_filter_ne in Hx. destruct Hx as [Hx Hne]. destruct (l_limbo _ _ HS x Hx) as [H1 H2].
       rewrite HinP', HinQ'. split; [|exact H2]. intros [[_ [H|H]]|[_ H]]; tauto.
@@ -82,4 +82,142 @@ Proof.
       * apply (po_np _ _ HP x pl (or_intror Hx) Hp).
     + intros x ql Hx Hq. rewrite Equeue in Hq. apply (po_nq _ _ HP x ql (or_intror Hx) Hq).
     + exact HndT.
+Qed.
+
+Lemma promote_fold_SL : forall T st L,
+  SL st L -> PO st T -> (forall t, In t T -> In t L) ->
+  let st' := fold_left (fun s t => promote_tx t s) T st in
+  (exists L', SL st' L' /\ (forall x, In x L' <-> In x L /\ ~ In x T)) /\
+  p_queue st' = p_queue st /\ p_cfg st' = p_cfg st /\ p_chain st' = p_chain st.
+Proof.
+  induction T as [|t T IH]; intros st L HS HP HT; cbn [fold_left].
+  - split; [exists L; split; [exact HS | intros x; cbn; tauto] | tauto].
+  - destruct (promote_tx_SL st L T t HS HP (HT t (or_introl eq_refl))) as [S1 [P1 [Q1 [C1 Ch1]]]].
+    pose proof (po_nd _ _ HP) as Hnd. cbn [map] in Hnd. inversion Hnd as [|? ? Hkt _]; subst.
+    destruct (IH _ _ S1 P1) as [[L' [S' M']] [Q' [C' Ch']]].
+    + intros x Hx. apply In_filter_ne. split; [apply HT; right; exact Hx|]. intros ->. apply Hkt. apply in_map. exact Hx.
+    + split; [|repeat split; congruence]. exists L'. split; [exact S'|]. intros x. rewrite M', In_filter_ne. cbn [In].
+      split; [intros [[H1 H2] H3]; split; [exact H1|]; intros [H|H]; [apply H2; congruence | apply H3, H] |].
+      intros [H1 H2]. split; [split; [exact H1|]; intros ->; apply H2; left; reflexivity | intros H; apply H2; right; exact H].
+Qed.
+
+(* queue.promoteExecutables for one account *)
+Lemma q_promote_one_SL : forall a st L T readies dropped st1,
+  SL st L -> PO st T -> (forall t, In t T -> In t L) ->
+  q_promote_one a st = (readies, dropped, st1) ->
+  SL st1 (readies ++ dropped ++ L) /\ PO st1 (T ++ readies) /\
+  (forall x, In x readies -> ~ In x dropped) /\ (forall x, In x readies \/ In x dropped -> inQ st x) /\
+  p_pending st1 = p_pending st /\ p_cfg st1 = p_cfg st /\ p_chain st1 = p_chain st.
+Proof.
+  intros a st L T readies dropped st1 HS HP HT E. unfold q_promote_one in E.
+  destruct (p_queue st a) as [l|] eqn:Eq.
+  2:{ inversion E; subst. cbn [app]. rewrite app_nil_r. split; [exact HS|]. split; [exact HP|]. split; [intros x []|]. split; [intros x [[]|[]] | tauto]. }
+  destruct (l_qw _ _ HS a l Eq) as [Lq Ha].
+  destruct (list_forward (ch_nonce (p_chain st) a) l) as [forwards l1] eqn:E1.
+  destruct (list_filter (ch_bal (p_chain st) a) (ch_gaslimit (p_chain st)) l1) as [[drops inv] l2] eqn:E2.
+  destruct (list_ready (pn_get a st) l2) as [rd l3] eqn:E3.
+  destruct (list_cap (N.to_nat (c_aqueue (p_cfg st))) l3) as [caps l4] eqn:E4.
+  inversion E; subst readies dropped st1; clear E.
+  destruct (list_forward_spec _ _ _ _ _ _ _ Lq E1) as [L1 [M1 [D1 _]]].
+  destruct (list_filter_spec _ _ _ _ _ _ _ _ _ L1 E2) as [L2 [M2 [D2 [_ [Hinv _]]]]]. rewrite (Hinv eq_refl) in *.
+  destruct (list_ready_spec _ _ _ _ _ _ _ L2 E3) as [L3 [M3 [D3 Srd]]].
+  destruct (list_cap_spec _ _ _ _ _ _ _ L3 E4) as [L4 [M4 D4]].
+  set (st1 := if l_empty l4 then chk l4 (del_queue a st) else put_queue a l4 st).
+  assert (F1 : (forall b, p_queue st1 b = upd (p_queue st) a (stored l4) b) /\ p_pending st1 = p_pending st /\
+               p_all st1 = p_all st /\ p_slots st1 = p_slots st /\ p_cfg st1 = p_cfg st /\
+               p_chain st1 = p_chain st /\ p_panic st1 = p_panic st).
+  { unfold st1, stored, put_queue. rewrite !(chk_ok _ _ _ _ _ L4). destruct (l_empty l4); cbn; repeat split; auto. }
+  destruct F1 as [Q1 [P1 [Al1 [Sl1 [C1 [Ch1 Pa1]]]]]].
+  assert (Hrd_l : forall x, In x rd -> In x (l_txs l)).
+  { intros x Hx. apply M1. left. apply M2. left. apply M3. right. exact Hx. }
+  assert (Hl4_l : forall x, In x (l_txs l4) -> In x (l_txs l)).
+  { intros x Hx. apply M1. left. apply M2. left. apply M3. left. apply M4. left. exact Hx. }
+  assert (Hmem : forall x, In x (l_txs l) <-> in_opt x (stored l4) \/ In x (rd ++ forwards ++ drops ++ caps)).
+  { intros x. rewrite in_opt_stored, !in_app_iff, M1, M2, M3, M4. cbn [In]. tauto. }
+  assert (Hdis : forall x, In x (rd ++ forwards ++ drops ++ caps) -> ~ in_opt x (stored l4)).
+  { intros x Hx. rewrite in_opt_stored. intros H4. rewrite !in_app_iff in Hx.
+    assert (H3 : In x (l_txs l3)) by (apply M4; left; exact H4).
+    assert (H2 : In x (l_txs l2)) by (apply M3; left; exact H3).
+    assert (H1 : In x (l_txs l1)) by (apply M2; left; exact H2).
+    destruct Hx as [Hx|[Hx|[Hx|Hx]]]; [apply (D3 x Hx H3) | apply (D1 x Hx H1) | apply (D2 x (or_introl Hx) H2) | apply (D4 x Hx H4)]. }
+  assert (Hrd_nd : forall x, In x rd -> ~ In x (forwards ++ drops ++ caps)).
+  { intros x Hx Hd. rewrite !in_app_iff in Hd.
+    assert (H2 : In x (l_txs l2)) by (apply M3; right; exact Hx).
+    assert (H1 : In x (l_txs l1)) by (apply M2; left; exact H2).
+    destruct Hd as [Hd|[Hd|Hd]]; [apply (D1 x Hd H1) | apply (D2 x (or_introl Hd) H2) |].
+    apply (D3 x Hx). apply M4. right. exact Hd. }
+  assert (HinQ : forall x, In x rd \/ In x (forwards ++ drops ++ caps) -> inQ st x).
+  { intros x Hx. assert (Hxl : In x (l_txs l)) by (apply Hmem; right; apply in_app_iff; exact Hx).
+    unfold inQ. rewrite (proj1 (lk_mem _ _ _ _ Lq x Hxl)), Eq. exact Hxl. }
+  split; [|split; [|split; [exact Hrd_nd | split; [exact HinQ | tauto]]]].
+  - rewrite app_assoc.
+    apply (SL_shrink_queue st st1 L a l (stored l4) (rd ++ forwards ++ drops ++ caps) HS Eq); try assumption.
+    intros l0 Hl0. unfold stored in Hl0. destruct (l_empty l4); inversion Hl0; subst. exact L4.
+  - pose proof (lw_sorted _ (lk_wf _ _ _ _ Lq)) as Hso.
+    split.
+    + intros t Ht. rewrite C1. apply in_app_iff in Ht. destruct Ht as [Ht|Ht]; [apply (po_ok _ _ HP t Ht) | apply (lk_mem _ _ _ _ Lq), Hrd_l, Ht].
+    + intros t pl Ht Hp. rewrite P1 in Hp. apply in_app_iff in Ht. destruct Ht as [Ht|Ht]; [apply (po_np _ _ HP t pl Ht Hp)|].
+      pose proof (Hrd_l t Ht) as Htl. destruct (lk_mem _ _ _ _ Lq t Htl) as [Hf _]. rewrite Hf in Hp.
+      apply (l_disj _ _ HS a pl l t Hp Eq Htl).
+    + intros t ql Ht Hq. rewrite Q1 in Hq. unfold upd in Hq. destruct (t_from t =? a) eqn:Ea.
+      * apply N.eqb_eq in Ea. unfold stored in Hq. destruct (l_empty l4); inversion Hq; subst ql.
+        apply in_app_iff in Ht. destruct Ht as [Ht|Ht].
+        -- rewrite <- Ea in Eq. eapply sm_get_none_sub; [apply (po_nq _ _ HP t l Ht Eq) | exact Hl4_l].
+        -- apply sm_get_none_intro. intros z Hz En. apply (D3 t Ht).
+           assert (z = t) by (eapply sorted_nonce_inj; [exact Hso | apply Hl4_l, Hz | apply Hrd_l, Ht | exact En]). subst z.
+           apply M4. left. exact Hz.
+      * apply in_app_iff in Ht. destruct Ht as [Ht|Ht]; [apply (po_nq _ _ HP t ql Ht Hq)|].
+        apply N.eqb_neq in Ea. exfalso. apply Ea. apply (lk_mem _ _ _ _ Lq), Hrd_l, Ht.
+    + rewrite map_app. apply NoDup_app_intro; [apply (po_nd _ _ HP) | apply sorted_keys_NoDup, Srd |].
+      intros k Hk1 Hk2. apply in_map_iff in Hk1. destruct Hk1 as [t [Hkt Ht]]. apply in_map_iff in Hk2. destruct Hk2 as [x [Hkx Hx]].
+      subst k. unfold key in Hkx. inversion Hkx as [[Hf Hn]].
+      pose proof (Hrd_l x Hx) as Hxl. destruct (lk_mem _ _ _ _ Lq x Hxl) as [Hfx _].
+      assert (Eqt : p_queue st (t_from t) = Some l) by (rewrite <- Hf, Hfx; exact Eq).
+      eapply sm_get_none_notin; [apply (po_nq _ _ HP t l Ht Eqt) | exact Hxl | exact Hn].
+Qed.
+
+Lemma promote_acc_SL : forall accts st L P D P' D' st1,
+  SL st L -> PO st P -> (forall x, In x L <-> In x P \/ In x D) -> (forall x, In x P -> ~ In x D) ->
+  fold_left (fun '(p, d, s) a => let '(p1, d1, s1) := q_promote_one a s in (p ++ p1, d ++ d1, s1)) accts (P, D, st) = (P', D', st1) ->
+  exists L1, SL st1 L1 /\ PO st1 P' /\ (forall x, In x L1 <-> In x P' \/ In x D') /\ (forall x, In x P' -> ~ In x D') /\
+  p_pending st1 = p_pending st /\ p_cfg st1 = p_cfg st /\ p_chain st1 = p_chain st.
+Proof.
+  induction accts as [|a accts IH]; intros st L P D P' D' st1 HS HP HL Hd E; cbn [fold_left] in E.
+  - inversion E; subst. exists L. tauto.
+  - destruct (q_promote_one a st) as [[p1 d1] s1] eqn:Eq.
+    destruct (q_promote_one_SL a st L P p1 d1 s1 HS HP (fun t Ht => proj2 (HL t) (or_introl Ht)) Eq)
+      as [S1 [P1 [Hd1 [HQ1 [Pe1 [C1 Ch1]]]]]].
+    destruct (IH s1 (p1 ++ d1 ++ L) (P ++ p1) (D ++ d1) P' D' st1 S1 P1) as [L1 [S' [PO' [M' [Dd' [Pe' [C' Ch']]]]]]].
+    + intros x. rewrite !in_app_iff, HL. tauto.
+    + intros x Hx Hx'. apply in_app_iff in Hx. apply in_app_iff in Hx'.
+      assert (HLq : forall y, In y L -> ~ inQ st y) by (intros y Hy; apply (l_limbo _ _ HS y Hy)).
+      destruct Hx as [Hx|Hx]; destruct Hx' as [Hx'|Hx'].
+      * apply (Hd x Hx Hx').
+      * apply (HLq x); [apply HL; left; exact Hx | apply HQ1; right; exact Hx'].
+      * apply (HLq x); [apply HL; right; exact Hx' | apply HQ1; left; exact Hx].
+      * apply (Hd1 x Hx Hx').
+    + exact E.
+    + exists L1. split; [exact S'|]. split; [exact PO'|]. split; [exact M'|]. split; [exact Dd'|]. split; [congruence | split; congruence].
+Qed.
+
+(* promoteExecutables *)
+Lemma promote_executables_RS : forall accts st, SInv st -> RS st (promote_executables accts st).
+Proof.
+  intros accts st HS. unfold promote_executables.
+  destruct (fold_left (fun '(p, d, s) a => let '(p1, d1, s1) := q_promote_one a s in (p ++ p1, d ++ d1, s1)) accts ([], [], st))
+    as [[P D] st1] eqn:E.
+  destruct (promote_acc_SL accts st [] [] [] P D st1 (SL_of_SInv _ HS)) as [L1 [S1 [PO1 [M1 [D1 [Pe1 [C1 Ch1]]]]]]]; try exact E.
+  { split; [intros t [] | intros t pl [] | intros t ql [] | constructor]. }
+  { intros x. cbn. tauto. }
+  { intros x []. }
+  destruct (promote_fold_SL P st1 L1 S1 PO1 (fun t Ht => proj2 (M1 t) (or_introl Ht))) as [[L2 [S2 M2]] [Q2 [C2 Ch2]]].
+  set (st2 := fold_left (fun s t => promote_tx t s) P st1) in *.
+  pose proof (SL_fold_all_remove (fun _ s => s) (fun _ _ => eq_refl) D st2 L2 S2) as H. cbv beta in H.
+  destruct H as [[L3 [S3 M3]] [P3 [Q3 [C3 Ch3]]]].
+  { intros x Hx. apply (l_limbo _ _ S2 x). apply M2. split; [apply M1; right; exact Hx | intros Hp; apply (D1 x Hp Hx)]. }
+  set (st3 := fold_left (fun s t => all_remove t s) D st2) in *.
+  assert (R3 : RS st st3).
+  { split; [|split; congruence]. eapply SInv_of_SL; [exact S3|].
+    intros t Ht. apply M3 in Ht. destruct Ht as [H1 H2]. apply M2 in H1. destruct H1 as [H1 H1']. apply M1 in H1. tauto. }
+  eapply RS_core; [exact R3 | apply core_priced_removed].
 Qed.
